@@ -3,6 +3,9 @@ package main
 import (
 	"context"
 	"fmt"
+	appsv1 "k8s.io/api/apps/v1"
+	apierrors "k8s.io/apimachinery/pkg/api/errors"
+	"k8s.io/apimachinery/pkg/api/resource"
 	"math"
 	"os"
 	"runtime/debug"
@@ -55,6 +58,23 @@ type mp struct {
 	claimOf map[string]string // pod key -> NodeClaim name created for it
 	deleted map[string]bool   // NodeClaim names made "deleting" by the harness
 	marked  map[string]bool   // provider ids the harness passed to Cluster.MarkForDeletion
+	// daemonset informer: when dsCached, Cluster.UpdateDaemonSet was delivered for every daemonset after its pods were
+	// created, so getDaemonSetPods works from the newest existing pod (dsNewest) instead of the template
+	dsCached    bool
+	dsNewest    map[string]*corev1.Pod
+	livePrepped bool // a scheduler with at least one template was built on the live cluster (cached daemon pods got the PreferNoSchedule toleration)
+	// faults
+	failCreate int // the n-th NodeClaim create fails once (0 = never)
+	creates    int
+	// expectations about the batch (pod key -> kind), see gen.go
+	podKind  map[string]string
+	requeued [][2]string
+	// number of "list the pods without a node" calls: moves iff a scheduling pass started
+	pendingLists int
+	failPodList  bool
+	deadlinePool string // GetInstanceTypes of this NodePool reports context.DeadlineExceeded
+	// NodePools that must not be used for new NodeClaims right now (name -> why)
+	poolOut map[string]string
 }
 
 func newMP(r *kit.Rand, w *sk.World, cfg sk.RunCfg) (*mp, error) {
@@ -66,7 +86,7 @@ func newMP(r *kit.Rand, w *sk.World, cfg sk.RunCfg) (*mp, error) {
 		mv = options.MinValuesPolicyBestEffort
 	}
 	cpu := int64(cfg.Workers) * 1000
-	m := &mp{w: w, r: r, cfg: cfg, claimOf: map[string]string{}, deleted: map[string]bool{}, marked: map[string]bool{}}
+	m := &mp{w: w, r: r, cfg: cfg, claimOf: map[string]string{}, deleted: map[string]bool{}, marked: map[string]bool{}, dsNewest: map[string]*corev1.Pod{}, podKind: map[string]string{}, poolOut: map[string]string{}}
 	m.ctx = options.ToContext(context.Background(), test.Options(test.OptionsFields{PreferencePolicy: &pp, MinValuesPolicy: &mv, CPURequests: &cpu}))
 	m.clk = clock.NewFakeClock(time.Unix(1_700_000_000, 0))
 	// NodeClaims are created with generateName; the API server would pick the suffix and the UID.  The PRNG does it
@@ -77,8 +97,25 @@ func newMP(r *kit.Rand, w *sk.World, cfg sk.RunCfg) (*mp, error) {
 			nc.Name = fmt.Sprintf("%s%c%c%03d", nc.GenerateName, 'a'+rune(r.Intn(26)), 'a'+rune(r.Intn(26)), m.names)
 			nc.UID = types.UID("uid-" + nc.Name)
 			nc.CreationTimestamp = metav1.NewTime(m.clk.Now())
+			m.creates++
+			if m.creates == m.failCreate {
+				return fmt.Errorf("injected: the API server refused the NodeClaim")
+			}
 		}
 		return c.Create(ctx, obj, opts...)
+	}, List: func(ctx context.Context, c client.WithWatch, list client.ObjectList, opts ...client.ListOption) error {
+		// Provisioner.GetPendingPods is the first thing a scheduling pass does: it lists the pods without a node
+		if _, ok := list.(*corev1.PodList); ok {
+			lo := &client.ListOptions{}
+			lo.ApplyOptions(opts)
+			if lo.FieldSelector != nil && lo.FieldSelector.String() == "spec.nodeName=" {
+				m.pendingLists++
+				if m.failPodList {
+					return fmt.Errorf("injected: list of pending pods failed")
+				}
+			}
+		}
+		return c.List(ctx, list, opts...)
 	}, Delete: func(ctx context.Context, c client.WithWatch, obj client.Object, opts ...client.DeleteOption) error {
 		if os.Getenv("C04_DEBUG") != "" {
 			fmt.Fprintf(os.Stderr, "DELETE %T %s\n%s\n", obj, obj.GetName(), debug.Stack())
@@ -123,7 +160,17 @@ func newMP(r *kit.Rand, w *sk.World, cfg sk.RunCfg) (*mp, error) {
 			}
 			for _, ds := range w.DaemonSets {
 				if n.DSBound[ds.Name] {
-					all = append(all, dsPod(ds.Name, ds.Spec.Template.Spec, n.Node.Name, ds.UID))
+					dp := dsPod(ds.Name, ds.Spec.Template.Spec, n.Node.Name, ds.UID)
+					m.names++
+					dp.CreationTimestamp = metav1.NewTime(time.Unix(1_650_000_000+int64(m.names), 0))
+					if r.Chance(1, 3) { // a pod of an older revision of the daemonset: other requests, no node affinity
+						dp.Spec.Affinity = nil
+						dp.Spec.Containers[0].Resources.Requests[corev1.ResourceCPU] = *resourceMilli(dp.Spec.Containers[0].Resources.Requests.Cpu().MilliValue() + 50)
+					}
+					all = append(all, dp)
+					if cur := m.dsNewest[ds.Name]; cur == nil || dp.CreationTimestamp.After(cur.CreationTimestamp.Time) {
+						m.dsNewest[ds.Name] = dp
+					}
 				}
 			}
 			for _, p := range all {
@@ -141,7 +188,31 @@ func newMP(r *kit.Rand, w *sk.World, cfg sk.RunCfg) (*mp, error) {
 	for _, p := range w.Pods {
 		m.addPending(p)
 	}
+	m.dsCached = r.Chance(1, 2)
+	if m.dsCached {
+		if err := m.daemonSetEvents(m.cluster); err != nil {
+			return nil, err
+		}
+	}
 	return m, nil
+}
+
+func resourceMilli(v int64) *resource.Quantity {
+	return resource.NewMilliQuantity(v, resource.DecimalSI)
+}
+
+// daemonSetEvents plays the DaemonSet informer for every daemonset of the API.
+func (m *mp) daemonSetEvents(cl *state.Cluster) error {
+	l := &appsv1.DaemonSetList{}
+	if err := m.cl.List(m.ctx, l); err != nil {
+		return err
+	}
+	for i := range l.Items {
+		if err := cl.UpdateDaemonSet(m.ctx, &l.Items[i]); err != nil {
+			return err
+		}
+	}
+	return nil
 }
 
 func dsPod(dsName string, spec corev1.PodSpec, node string, uid types.UID) *corev1.Pod {
@@ -244,13 +315,22 @@ func (m *mp) reconcileClaim(name string) *v1.NodeClaim {
 // nodeAppears plays the kubelet / cloud controller: a Node object with the provider id, the labels the instance
 // really has, the unregistered taint, the startup taints, maybe a not-ready taint, and a status that may still
 // report zero or nothing for some resources.
-func (m *mp) nodeAppears(nc *v1.NodeClaim, zeroStatus bool) *corev1.Node {
+func (m *mp) nodeAppears(nc *v1.NodeClaim, zeroStatus bool, variant string) *corev1.Node {
 	name := "node-" + nc.Name
 	labels := map[string]string{corev1.LabelHostname: name}
 	for _, k := range []string{corev1.LabelInstanceTypeStable, corev1.LabelArchStable, corev1.LabelOSStable, corev1.LabelTopologyZone} {
 		if v, ok := nc.Labels[k]; ok {
 			labels[k] = v
 		}
+	}
+	pid := nc.Status.ProviderID
+	switch variant {
+	case "no-provider-id": // the cloud controller has not set spec.providerID yet; the kubelet already set the nodepool label
+		pid = ""
+		labels[v1.NodePoolLabelKey] = nc.Labels[v1.NodePoolLabelKey]
+	case "no-instance-type": // the nodepool label is there, the instance-type label is not yet
+		delete(labels, corev1.LabelInstanceTypeStable)
+		labels[v1.NodePoolLabelKey] = nc.Labels[v1.NodePoolLabelKey]
 	}
 	taints := []corev1.Taint{v1.UnregisteredNoExecuteTaint}
 	taints = append(taints, nc.Spec.StartupTaints...)
@@ -275,11 +355,20 @@ func (m *mp) nodeAppears(nc *v1.NodeClaim, zeroStatus bool) *corev1.Node {
 			case 1:
 				delete(alloc, k)
 			}
+			switch m.r.Intn(4) {
+			case 0:
+				z := capa[k]
+				z.Set(0)
+				capa[k] = z
+			case 1:
+				delete(capa, k)
+			}
 		}
 	}
-	n := test.Node(test.NodeOptions{ObjectMeta: metav1.ObjectMeta{Name: name, UID: types.UID("uid-" + name), Labels: labels}, ProviderID: nc.Status.ProviderID,
+	n := test.Node(test.NodeOptions{ObjectMeta: metav1.ObjectMeta{Name: name, UID: types.UID("uid-" + name), Labels: labels}, ProviderID: pid,
 		Taints: taints, Allocatable: alloc, Capacity: capa, ReadyStatus: corev1.ConditionFalse})
-	n.Namespace = ""             // test.Node puts cluster-scoped fixtures into "default"
+	n.Namespace = "" // test.Node puts cluster-scoped fixtures into "default"
+	n.Status.Capacity = capa
 	n.Status.Allocatable = alloc // test.Node fills defaults for missing resources; keep exactly what the kubelet "reported"
 	kit.Apply(m.ctx, m.cl, n)
 	m.syncNode(name)
@@ -367,6 +456,11 @@ func (m *mp) fresh() (*freshView, error) {
 	for id := range m.marked {
 		cl.MarkForDeletion(id)
 	}
+	if m.dsCached {
+		if err := m.daemonSetEvents(cl); err != nil {
+			return nil, err
+		}
+	}
 	rec := events.NewRecorder(&record.FakeRecorder{})
 	return &freshView{cluster: cl, prov: provisioning.NewProvisioner(m.cl, rec, m.cp, cl, m.clk, deviceallocation.NewController(m.cl), virtualpods.NewVirtualPodCache(m.cl))}, nil
 }
@@ -401,7 +495,21 @@ func (m *mp) podEvent(ns, name string) {
 		return
 	}
 	if err := m.cluster.UpdatePod(m.ctx, p); err != nil {
+		// the pod informer requeues when the node of the binding is not known yet
+		if apierrors.IsNotFound(err) {
+			m.requeued = append(m.requeued, [2]string{ns, name})
+			return
+		}
 		panic(err)
+	}
+}
+
+// deliverRequeued re-delivers the pod events the informer had to requeue.
+func (m *mp) deliverRequeued() {
+	q := m.requeued
+	m.requeued = nil
+	for _, k := range q {
+		m.podEvent(k[0], k[1])
 	}
 }
 
@@ -422,4 +530,20 @@ func (m *mp) nodeEvent(name, namespace string) {
 	if err := m.cluster.UpdateNode(m.ctx, n); err != nil {
 		panic(err)
 	}
+}
+
+// fixNode completes a node that appeared without provider id / instance-type label (node event follows).
+func (m *mp) fixNode(nc *v1.NodeClaim) {
+	n := &corev1.Node{}
+	if err := m.cl.Get(m.ctx, client.ObjectKey{Name: "node-" + nc.Name}, n); err != nil {
+		panic(err)
+	}
+	n.Spec.ProviderID = nc.Status.ProviderID
+	if v, ok := nc.Labels[corev1.LabelInstanceTypeStable]; ok {
+		n.Labels[corev1.LabelInstanceTypeStable] = v
+	}
+	if err := m.cl.Update(m.ctx, n); err != nil {
+		panic(err)
+	}
+	m.syncNode(n.Name)
 }
